@@ -32,20 +32,6 @@ theorem fresh_all_distinct (P : List Site) (hp : ∀ s ∈ P, s.evalTime = .perC
   have hr := (runFrom_fresh (boot P 0).1 hb.2 0 h (boot P 0).2).2
   exact hr.imp (fun hlt => Nat.ne_of_lt hlt)
 
-/-- distinct values everywhere ⇒ nothing shared between two artifacts -/
-theorem noSharing_of_allDistinct (o : List Obs) (hd : AllDistinct o) : NoSharing o := by
-  intro a ha b hb hne htok
-  induction o with
-  | nil => simp at ha
-  | cons x xs ih =>
-    rw [AllDistinct, List.pairwise_cons] at hd
-    simp only [List.mem_cons] at ha hb
-    rcases ha with rfl | ha <;> rcases hb with rfl | hb
-    · exact hne rfl
-    · exact hd.1 b hb htok
-    · exact hd.1 a ha htok.symm
-    · exact ih hd.2 ha hb
-
 /-- **Freshness ⇔ every site is per-call.**  Quantified over all histories: any number of constructions,
     each using any list of sites, in any interleaving. -/
 theorem fresh_iff (P : List Site) :
